@@ -29,6 +29,17 @@ DeepSame(a, b) ==
     ELSE IF IsNum(a) THEN b.k \in {"fin", "inf", "nan"} /\ Same(a, Canon(b))
     ELSE FALSE
 
+\* the same, but with the two zeros identified (the sign of an exact cancellation under RTN is open)
+RECURSIVE DeepSameZ(_, _)
+DeepSameZ(a, b) ==
+    IF a.k \in {"list", "tuple"} THEN
+        b.k = a.k /\ Len(a.v) = Len(b.v) /\ \A i \in 1..Len(a.v) : DeepSameZ(a.v[i], b.v[i])
+    ELSE IF a.k = "bool" THEN b.k = "bool" /\ a.b = b.b
+    ELSE IF a.k = "ctx" THEN b.k = "ctx" /\ a.c = b.c
+    ELSE IF a.k = "big" THEN b.k = "big" /\ a.s = b.s /\ a.n = b.n /\ a.d = b.d
+    ELSE IF IsNum(a) THEN b.k \in {"fin", "inf", "nan"} /\ SameVal(a, Canon(b))
+    ELSE FALSE
+
 Skippable(e) == e \in {"Unsupported", "OutOfDomain", "Undefined"}
 
 Init == /\ \E j \in 1..(Len(Progs) \div 2) : \E i \in 1..Len(Progs[2 * j - 1].inputs) : InitFor(2 * j - 1, i)
@@ -49,9 +60,9 @@ EquivVerdict ==
     IF first.status = "err" THEN "na"                         \* the original does not return on this input
     ELSE IF status = "err" /\ Skippable(result.e) THEN "skip"
     ELSE IF status = "err" THEN "model-raises"
-    ELSE IF ~DeepSame(first.result, result) THEN "model-value"
+    ELSE IF ~DeepSame(first.result, result) THEN (IF DeepSameZ(first.result, result) THEN "model-value-zero-sign" ELSE "model-value")
     ELSE IF "err" \in DOMAIN out THEN "code-raises"
-    ELSE IF ~DeepSame(first.result, out.val) THEN "code-value"
+    ELSE IF ~DeepSame(first.result, out.val) THEN (IF DeepSameZ(first.result, out.val) THEN "code-value-zero-sign" ELSE "code-value")
     ELSE "ok"
 
 JudgeEquiv ==
